@@ -7,6 +7,8 @@ from datetime import datetime, timezone, timedelta
 
 from core import LeanDriver, err_kind, canon, CORPUS_DIR
 from gen import fields as genfields
+import lib_c03alias
+from lib_c03alias import AliasOracle, alias_group, alias_nontrivial
 
 ID = "C03"
 GENERATORS = [genfields.generate]
@@ -18,10 +20,14 @@ THEOREMS = [P + t for t in (
     "structuralInfo_lossless", "location_lossless", "flags_lossless", "location_old_rule_counterexample",
     "reencode_stable", "encode_sorted", "unknown_keys_ignored", "unknown_key_anywhere", "known_fields_survive", "update_pure",
     "tags_roundtrip", "tags_constructed_roundtrip", "jsondata_text_idempotent", "jsondata_obj_roundtrip", "jsondata_none_roundtrip",
-    "finalized_immutable", "finalize_locks", "encode_requires_finalize", "maintenance_roundtrip", "entry_unknown_key",
+    "finalized_immutable", "finalize_locks", "encode_requires_finalize", "maintenance_roundtrip", "entry_unknown_key", "iso_roundtrip", "entryOK_of_dates", "maintenance_roundtrip_concrete",
     "pathinfo_encode_total", "pathinfo_roundtrip", "ero_roundtrip", "pathinfo_unknown_key", "path_unknown_key",
-    "ttuple_fromstring_partial", "ttuple_parse_roundtrip", "ttuple_fromstring_counterexample", "ttuple_int_counterexample",
+    "ttuple_fromstring_exact", "ttuple_fromstring_iff", "ttuple_int_exact", "ttuple_fromstring_roundtrip", "ttuple_parse_roundtrip", "ttuple_fromstring_counterexample", "ttuple_int_counterexample",
     "tuple_types_clean", "gateway_roundtrip", "gateway_unset",
+    "all_classes_lossless", "all_classes_reencode_stable", "gateway_ctor_idempotent", "gateway_reencode_stable", "gateway_unknown_key",
+    "history_reads_depend_on_state_only", "history_reads_ignore_owned", "jsondata_value_is_function_of_text", "jsondata_eq_own_text",
+    "tags_reads_stable", "maintenance_reads_stable", "update_copies", "update_copy_independent", "update_shared_counterexample",
+    "history_keeps_roundtrip", "list_classes_sane",
 )]
 TRUSTED_BASE = [
     "gen/fields.py: AST patterns for JSONField._set_fields guards, to_json/to_dict drop conditions, from_json/update statement lists; "
@@ -102,7 +108,13 @@ def mods():
 
 
 def jf_classes(cl):
-    return [c for c in cl.JSONField.__subclasses__() if c.__module__ == cl.__name__]
+    """every descendant of JSONField in the running module (a new subclass - also of a subclass - is picked up)"""
+    def desc(k):
+        out = []
+        for c in k.__subclasses__():
+            out += [c] + desc(c)
+        return out
+    return [c for c in desc(cl.JSONField) if c.__module__ == cl.__name__]
 
 
 # --------------------------------------------------------------------------
@@ -153,11 +165,19 @@ def pi_show(pi, p):
     return [pi_wire(pi, p), enc]
 
 
+def dt_build(x):
+    """a datetime from its ISO text, or from {"dt": [y, mo, d, h, mi, s, us], "tz_us": offset in microseconds | null}
+    (the form for datetimes CPython's fromisoformat cannot rebuild from their own isoformat())"""
+    if x is None:
+        return None
+    if isinstance(x, dict):
+        return datetime(*x["dt"], tzinfo=None if x.get("tz_us") is None else timezone(timedelta(microseconds=x["tz_us"])))
+    return datetime.fromisoformat(x)
+
+
 def entry_build(mm, w):
     st, dl, ee = w
-    return mm.MaintenanceEntry(mm.MaintenanceState[st] if st is not None else "no-such-state",
-                               datetime.fromisoformat(dl) if dl is not None else None,
-                               datetime.fromisoformat(ee) if ee is not None else None)
+    return mm.MaintenanceEntry(mm.MaintenanceState[st] if st is not None else "no-such-state", dt_build(dl), dt_build(ee))
 
 
 def entry_wire(e):
@@ -265,9 +285,155 @@ def impl_eval(M, r):
             t = C(atype=C_first_type(tt, r[1]), aval="")
             t.parse_from_string(r[2])
             return ["ok", [t.type, to_wire(t.val), t.get_as_string()]]
+        if op == "json.parse":
+            return ["ok", to_wire(json.loads(r[1]))]
+        if op == "iso":
+            return ["ok", datetime.fromisoformat(r[1]).isoformat()]
+        if op == "hist":
+            return ["ok", hist_eval(M, r)]
     except Exception as e:
         return ["err", kind(e)]
     raise ValueError("unknown op %s" % op)
+
+
+def json_key(k):
+    """how json.dumps writes a dict key"""
+    if isinstance(k, str):
+        return k
+    if k is True:
+        return "true"
+    if k is False:
+        return "false"
+    if k is None:
+        return "null"
+    if isinstance(k, float):
+        return repr(k)
+    return str(k)
+
+
+def to_wire_json(v):
+    """wire form of the JSON value a Python object stands for (tuples as lists, keys as json.dumps writes them)"""
+    if isinstance(v, dict):
+        return {"o": [[json_key(k), to_wire_json(x)] for k, x in v.items()]}
+    if isinstance(v, (list, tuple)):
+        return [to_wire_json(x) for x in v]
+    return to_wire(v)
+
+
+def hist_eval(M, r):
+    """run a history (reads / in-place edits of caller-owned objects / looks at them) against the real objects"""
+    import ast
+    from lib_c03alias import deep_edit, grow
+    cl, tg, jd, gw, pi, mm, tt = M
+    knd = r[1]
+    out = []
+    if knd == "jf":
+        C = getattr(cl, r[2])
+        kw = {k: from_wire(v) for k, v in r[3]}
+        x, y = C(**kw), None
+
+        def shown(o):
+            return None if o is None else [[to_wire(v) for v in o.__dict__.values()], o.to_json()]
+        for st in r[4]:
+            if st[0] == "growX":
+                if isinstance(kw.get(st[1]), list):
+                    grow(kw[st[1]], from_wire(st[2]))
+                out.append(None)
+            elif st[0] == "update":
+                y = C.update(x)
+                out.append(None)
+            elif st[0] == "growY":
+                if y is not None and isinstance(y.__dict__.get(st[1]), list):
+                    grow(y.__dict__[st[1]], from_wire(st[2]))
+                out.append(None)
+            else:
+                out.append(shown(x if st[0] == "showX" else y))
+        return out
+    if knd == "jd":
+        C = getattr(jd, r[2])
+        src = r[3]
+        arg = src[1] if src[0] == "text" else (ast.literal_eval(src[2]) if len(src) > 2 else from_wire(src[1]))
+        x = C(arg)
+        owned = [arg]
+
+        def read(g, a):
+            if g == "json":
+                return x.json
+            if g == "data":
+                return x.data
+            tw = C(a)
+            return (x == tw) and (tw == x) and hash(x) == hash(tw)
+        edit = deep_edit
+        wire = to_wire_json
+    elif knd == "tags":
+        args = [from_wire(a) for a in r[2]]
+        x = tg.Tags(*args)
+        owned = list(args)
+
+        def read(g, a):
+            return x.to_json() if g == "json" else list(iter(x))
+        edit = deep_edit
+        wire = to_wire_json
+    elif knd == "mi":
+        built = [(nm, entry_build(mm, w)) for nm, w in r[2]]
+        x = mm.MaintenanceInfo()
+        for nm, e in built:
+            x.add(nm, e)
+        x.finalize()
+        owned = [e for _, e in built]
+        S = list(mm.MaintenanceState)
+
+        def read(g, a):
+            return {"json": x.to_json, "names": x.list_names, "details": x.list_details, "iter": lambda: list(x.iter())}[g]() if g != "get" else x.get(a)
+
+        def edit(o):
+            if isinstance(o, mm.MaintenanceEntry):
+                o.state = S[(S.index(o.state) + 1) % len(S)] if o.state in S else S[0]
+                o.deadline = None if o.deadline is not None else datetime(1999, 9, 9, 9, 9, 9)
+                o.expected_end = datetime(2001, 1, 1) if o.expected_end is None else None
+                return True
+            if isinstance(o, list):
+                for it in o:
+                    if isinstance(it, tuple) and len(it) == 2 and isinstance(it[1], mm.MaintenanceEntry):
+                        edit(it[1])
+                o.append("__m__")
+                return True
+            return False
+
+        def wire(o):
+            if isinstance(o, mm.MaintenanceEntry):
+                return entry_wire(o)
+            if isinstance(o, (list, tuple)):
+                return [wire(i) for i in o]
+            return to_wire(o)
+    else:
+        raise ValueError("unknown history kind %s" % knd)
+    for st in r[-1]:
+        if st[0] == "read":
+            v = read(st[1], st[2])
+            owned.append(v)
+            out.append([wire(v)])
+        elif st[1] >= len(owned):
+            out.append(None)
+        elif st[0] == "edit":
+            out.append([edit(owned[st[1]])])
+        else:
+            out.append([wire(owned[st[1]])])
+    return out
+
+
+def norm_floats(w):
+    """floats are carried as text: compare them as the numbers they denote"""
+    if isinstance(w, list):
+        return [norm_floats(x) for x in w]
+    if isinstance(w, dict):
+        if "f" in w and isinstance(w["f"], str):
+            try:
+                return {"f": repr(float(w["f"]))}
+            except ValueError:
+                return w
+        return {k: norm_floats(x) for k, x in w.items()}
+    return w
 
 
 _TYPES = {}
@@ -328,9 +494,27 @@ def label_values(cl, field):
     return _LABEL_OK[field]
 
 
+_GUARDS = {"Capacities": "nat", "CapacityHints": "str", "Labels": "strlist", "ReservationInfo": "strlist",
+           "StructuralInfo": "strlist", "Location": "strfloat", "Flags": "bool"}
+
+
 def guard_of(C):
-    return {"Capacities": "nat", "CapacityHints": "str", "Labels": "strlist", "ReservationInfo": "strlist",
-            "StructuralInfo": "strlist", "Location": "strfloat", "Flags": "bool"}[C.__name__]
+    """documented value type of the class's fields; for a class this table does not know yet it is found by probing the
+    constructor with one value of each kind (first field without a validator)"""
+    n = C.__name__
+    if n not in _GUARDS:
+        f = [k for k in C().__dict__ if k not in getattr(C, "VALIDATORS", {}) and k not in getattr(C, "LAMBDA_VALIDATORS", {})][0]
+        acc = []
+        for v in (1, "s", ["s"], 1.5, True):
+            try:
+                C(**{f: v})
+                acc.append(True)
+            except Exception:
+                acc.append(False)
+        _GUARDS[n] = {(True, False, False, False, True): "nat", (False, True, False, False, False): "str",
+                      (False, True, True, False, False): "strlist", (False, True, False, True, False): "strfloat",
+                      (False, False, False, False, True): "bool"}[tuple(acc)]
+    return _GUARDS[n]
 
 
 def passes_guard(C, v):
@@ -439,7 +623,10 @@ def iso_table(strings):
 
 DATES = [datetime(2024, 1, 2, 3, 4, 5), datetime(2024, 1, 2, 3, 4, 5, 123), datetime(1970, 1, 1, tzinfo=timezone.utc),
          datetime(2030, 12, 31, 23, 59, 59, 999999, tzinfo=timezone(timedelta(hours=-5))),
-         datetime(2024, 2, 29, 12, 0, tzinfo=timezone(timedelta(hours=5, minutes=30)))]
+         datetime(2024, 2, 29, 12, 0, tzinfo=timezone(timedelta(hours=5, minutes=30))),
+         datetime(1, 1, 1, 0, 0, 0, 1, tzinfo=timezone(timedelta(hours=5, minutes=30, seconds=15, microseconds=7))),
+         datetime(9999, 12, 31, 23, 59, 59, 999999, tzinfo=timezone(-timedelta(hours=23, minutes=59, seconds=59, microseconds=999999))),
+         datetime(2000, 2, 29, 0, 0, 1, tzinfo=timezone(-timedelta(seconds=1)))]
 STATES = ["Active", "PreMaint", "Maint", "Unknown", None]
 NODE_NAMES = ["RENC", "UKY", "n1", "", "é", "a b", "ALL"]
 
@@ -619,11 +806,163 @@ def gen_requests(M, rng, n):
         t = rng.choice(tuple_types(tt, cname))
         s = rng.choice(["", " ", "\t"]) + t + ":" + rng.choice(TV) + rng.choice(["", " ", "\n"])
         reqs.append([rng.choice(["tt.from", "tt.parse"]), cname, s])
+    # --- datetime.fromisoformat on the texts isoformat() writes (canonical shape), valid and invalid field values
+    def rand_dt(r):
+        y = r.choice([1, 2, 999, 1970, 2000, 2023, 2024, 2100, 9999, r.randrange(1, 10000)])
+        mo = r.randrange(1, 13)
+        dim = [31, 29 if (y % 4 == 0 and (y % 100 != 0 or y % 400 == 0)) else 28, 31, 30, 31, 30, 31, 31, 30, 31, 30, 31][mo - 1]
+        tz = None
+        if r.random() < 0.6:
+            secs = r.choice([0, 0, 1, 59, 60, 3600, 5 * 3600 + 1800, 19800, 86399, r.randrange(0, 86400)])
+            us = r.choice([0, 0, 0, 1, 999999, r.randrange(0, 1000000)])
+            td = timedelta(seconds=secs, microseconds=us)
+            tz = timezone(-td if r.random() < 0.5 and td else td)
+        return datetime(y, mo, r.choice([1, dim, r.randrange(1, dim + 1)]), r.choice([0, 23, r.randrange(24)]), r.choice([0, 59, r.randrange(60)]),
+                        r.choice([0, 59, r.randrange(60)]), r.choice([0, 0, 1, 999999, r.randrange(1000000)]), tzinfo=tz)
+    for d0 in DATES:
+        reqs.append(["iso", d0.isoformat()])
+    for s0 in ["", "yesterday", "2024-01-02T03:0", "2024-01-02T03:04:5", "2024-02-30T00:00:00", "2023-02-29T00:00:00", "2024-02-29T00:00:00", "1900-02-29T00:00:00", "2000-02-29T00:00:00",
+               "0000-01-01T00:00:00", "2024-00-10T00:00:00", "2024-13-10T00:00:00", "2024-01-00T00:00:00", "2024-01-32T00:00:00", "2024-04-31T00:00:00",
+               "2024-01-02T24:00:00", "2024-01-02T03:60:00", "2024-01-02T03:04:60", "2024-01-02T03:04:05+24:00", "2024-01-02T03:04:05-23:59:60",
+               "2024-01-02T03:04:05+05:60", "2024-01-02T03:04:05+99:00", "2024-01-02T03:04:05-00:00", "2024-01-02T03:04:05+00:00:00.000001",
+               "2024-01-02T03:04:05-00:00:00.999999", "2024-01-02T03:04:05+00:00:01.000001", "2024-01-02T03:04:05.000000", "2024-01-02T03:04:05+",
+               "2024-01-02T03:04:05+5:00", "2024-01-02T03:04:05.000001+00:00x", "x024-01-02T03:04:05", "2024-01-02T03:04:05-23:59:59.999999"]:
+        reqs.append(["iso", s0])
+    for i in range(n // 5):
+        reqs.append(["iso", rand_dt(rng).isoformat()])
+    # --- json.loads (the decoder of every stored text)
+    for t in PARSE_TEXTS:
+        reqs.append(["json.parse", t])
+    for i in range(n // 6):
+        o = json.loads(json.dumps(rand_json(rng, tuples=True, nonstr=True)))
+        k = rng.random()
+        t = json.dumps(o) if k < 0.4 else json.dumps(o, indent=rng.choice([0, 1, 3]), sort_keys=rng.random() < 0.5) if k < 0.6 else \
+            json.dumps(o, separators=(",", ":"), ensure_ascii=False)
+        if k > 0.85 and len(t) > 1:          # damaged texts
+            j = rng.randrange(len(t))
+            t = rng.choice([t[:j], t[:j] + t[j + 1:], t[:j] + rng.choice(",:]}[{\"\\ 0e.-") + t[j:], t + rng.choice(["]", ",", " x", "\n"])])
+            if "\\u" in t:                    # a cut surrogate pair is a lone surrogate in Python; outside the model
+                continue
+        reqs.append(["json.parse", t])
+    # --- histories: reads / in-place edits of the caller's objects / looks (aliasing)
+    jd_getters = [("json",), ("data",)]
+    for cname in ("MeasurementData", "UserData", "LayoutData"):
+        C = getattr(jd, cname)
+        fixed = [({"k": ["a", "b"], "n": {"x": 0}}, [["read", "data", None], ["edit", 0], ["read", "data", None], ["edit", 1], ["edit", 2], ["read", "data", None],
+                                                    ["read", "json", None], ["show", 0], ["show", 1], ["show", 2], ["show", 3]]),
+                 (None, [["read", "data", None], ["edit", 1], ["read", "data", None], ["read", "json", None], ["show", 1]]),
+                 ([[1], [2]], [["edit", 0], ["read", "data", None], ["read", "json", None]]),
+                 ({"t": (1, (2, 3)), 1: "one"}, [["read", "data", None], ["edit", 1], ["read", "data", None], ["read", "json", None]])]
+        for o, steps in fixed:
+            reqs.append(["hist", "jd", cname, ["obj", to_wire_json(o), repr(o)], steps])
+        for t in ['{"k": ["a", "b"], "z": 0}', ' [ {"a": []}, [1] ] ', "{}", '{"b":2,"a":1,"b":{"c":[]}}']:
+            reqs.append(["hist", "jd", cname, ["text", t, True], [["read", "data", None], ["edit", 1], ["read", "data", None], ["edit", 2], ["read", "data", None],
+                                                                 ["read", "json", None], ["show", 1], ["read", "eq", json.dumps(json.loads(t), sort_keys=True)],
+                                                                 ["read", "eq", "[0]"]]])
+        for i in range(max(4, n // 60)):
+            o = rand_json(rng, tuples=rng.random() < 0.3, nonstr=rng.random() < 0.3)
+            if isinstance(o, str):
+                continue
+            twin = json.dumps(json.loads(json.dumps(o)), sort_keys=True, indent=rng.choice([None, 1]))
+            other = json.dumps(rand_json(rng))
+            getters = jd_getters + ([("eq", lambda r_, a=twin, b=other: r_.choice([a, a, b]))] if len(twin) <= C.MAX_SIZE and len(other) <= C.MAX_SIZE else [])
+            if rng.random() < 0.6:
+                reqs.append(["hist", "jd", cname, ["obj", to_wire_json(o), repr(o)], rand_steps(rng, getters, 1, editable0=not has_tuple(o))])
+            else:
+                t = json.dumps(json.loads(json.dumps(o)), indent=rng.choice([None, None, 2]))
+                reqs.append(["hist", "jd", cname, ["text", t, True], rand_steps(rng, getters, 1)])
+    for args in [[["a", "b"]], ["a", ["b", "c"], []], [[]], []]:
+        reqs.append(["hist", "tags", args, [["read", "iter", None], ["edit", 0], ["edit", len(args)], ["read", "iter", None], ["read", "json", None], ["show", len(args)]]])
+    for i in range(max(4, n // 60)):
+        args = [[rng.choice(TAGS) for _ in range(rng.choice([0, 1, 3]))] if rng.random() < 0.7 else rng.choice(TAGS) for _ in range(rng.choice([1, 1, 2, 3]))]
+        reqs.append(["hist", "tags", args, rand_steps(rng, [("json",), ("iter",)], len(args))])
+    for i in range(max(4, n // 60)):
+        es, seen = [], set()
+        for _ in range(rng.choice([1, 2, 3])):
+            nm = rng.choice(NODE_NAMES)
+            if nm not in seen:
+                seen.add(nm)
+                es.append([nm, entry(rng)])
+        getters = [("json",), ("details",), ("names",), ("iter",), ("get", lambda r_, ns=[e[0] for e in es]: r_.choice(ns + ["absent"]))]
+        steps = [st for st in rand_steps(rng, getters, len(es)) if st[0] != "show"]
+        reqs.append(["hist", "mi", es, steps])
+    for C in classes:
+        if guard_of(C) != "strlist":
+            continue
+        names = list(C().__dict__)
+        for i in range(max(3, n // 100)):
+            kw = {}
+            for f in rng.sample(names, min(len(names), 3)):
+                pool = label_values(cl, f) if C.__name__ == "Labels" else STRS
+                if pool:
+                    kw[f] = [rng.choice(pool) for _ in range(rng.choice([0, 1, 2, 3]))] if rng.random() < 0.75 else rng.choice(pool)
+            steps = [["showX"]]
+            for _ in range(rng.choice([3, 6, 10])):
+                f = rng.choice(list(kw) + names[:1]) if kw else names[0]
+                pool = (label_values(cl, f) if C.__name__ == "Labels" else STRS) or ["x"]
+                steps.append(rng.choice([["growX", f, rng.choice(pool)], ["growY", f, rng.choice(pool)], ["update"], ["showX"], ["showY"]]))
+            steps += [["showX"], ["showY"]]
+            reqs.append(["hist", "jf", C.__name__, [[k, to_wire(v)] for k, v in kw.items()], steps])
     return reqs
+
+
+def rand_json(rng, d=0, tuples=False, nonstr=False):
+    """a random Python object json.dumps accepts; `tuples` / `nonstr`: also forms JSON normalises"""
+    k = rng.random()
+    if d > 3 or k < 0.35:
+        return rng.choice([None, True, False, 0, 1, -7, 2 ** 70, 0.0, 2.5, -1e-07, 1e22] + (["", "s", "é", "q\"\\", "\U0001f600\n", "\x7f/"] if d else []))
+    if k < 0.6:
+        return [rand_json(rng, d + 1, tuples, nonstr) for _ in range(rng.choice([0, 1, 2, 3]))]
+    if k < 0.68 and tuples:
+        return tuple(rand_json(rng, d + 1, tuples, nonstr) for _ in range(rng.choice([1, 2])))
+    keys = ["a", "b", "k", "", "é", "__m__", "f", "o"] + ([1, 2.5, True, None] if nonstr and rng.random() < 0.5 else [])
+    return {rng.choice(keys): rand_json(rng, d + 1, tuples, nonstr) for _ in range(rng.choice([0, 1, 2, 3]))}
+
+
+def has_tuple(o):
+    if isinstance(o, tuple):
+        return True
+    if isinstance(o, list):
+        return any(has_tuple(x) for x in o)
+    if isinstance(o, dict):
+        return any(has_tuple(x) for x in o.values())
+    return False
+
+
+def rand_steps(rng, getters, n_owned, editable0=True):
+    """a history: reads, in-place edits of caller-owned objects (arguments and earlier results), looks at them"""
+    steps, owned = [], n_owned
+    for _ in range(rng.choice([3, 5, 8, 12])):
+        k = rng.random()
+        if k < 0.45 or owned == 0:
+            g = rng.choice(getters)
+            steps.append(["read", g[0], g[1](rng) if len(g) > 1 else None])
+            owned += 1
+        else:
+            i = rng.randrange(0, owned + (1 if rng.random() < 0.05 else 0))
+            if i < n_owned and not editable0:
+                continue
+            steps.append([rng.choice(["edit", "edit", "show"]), i])
+    steps.append(["read", getters[0][0], None])
+    steps.append(["read", getters[1][0], getters[1][1](rng) if len(getters[1]) > 1 else None])
+    return steps
+
+
+PARSE_TEXTS = ["", " ", "null", " true", "false ", "nul", "True", "0", "-0", "00", "01", "-", "1.", ".5", "1.5", "-2.50", "1e5", "1E-3", "1e", "1e+", "2e+07",
+               "12345678901234567890123", "NaN", "Infinity", "-Infinity", "-Inf", "nan", '""', '"a', '"\\n"', '"\\x"', '"\\u00e9"', '"\\u00E9\\/"',
+               '"\\ud83d\\ude00"', '"\\u12"', '"tab\there"', '"é\U0001f600"', "[]", "[ ]", "[1,2]", "[1 ,2 ]", "[1,]", "[,1]", "[1 2]", "[", "]", "{}", "{ }",
+               '{"a":1}', '{"a" : 1 , "b":[ ]}', '{"a":1,}', '{a:1}', "{'a':1}", '{"a":1,"b":2,"a":3}', '{"a":{"a":{"a":[[[]]]}}}', '{"a"}', '{"a":}', '[1]x', "[1] [2]",
+               "\n\t[\r1\n]\n", '{"k": ["a", "b"], "z": 0}', "[" * 30 + "]" * 30, '{"__m__": [1]}', '[{"o": 1, "f": "x"}]', "\ufeff[]", "[\u00a01]", "// c\n1", "1 /* */"]
 
 
 def nontrivial(r):
     op = r[0]
+    if op == "json.parse":
+        return len(r[1].strip()) > 2
+    if op == "iso":
+        return len(r[1]) >= 19
+    if op == "hist":
+        return any(st[0] in ("edit", "growX", "growY") for st in r[-1])
     if op == "jf.new":
         return len(r[2]) > 0
     if op == "jf.dec":
@@ -659,6 +998,9 @@ def correspondence(ctx, res, n=None):
         if nontrivial(r):
             res.nontrivial.add(canon(r))
         mj = json.loads(m)
+        if r[0] in ("json.parse", "hist"):
+            res.count("op:hist:" + r[1] if r[0] == "hist" else "parse:" + i[0])
+            mj, i = norm_floats(mj), norm_floats(i)
         if json.loads(canon(mj)) != json.loads(canon(i)):
             res.disagreements.append({"case": r, "impl": i, "model": mj})
         elif r[0] not in shown and nontrivial(r) and i[0] == "ok":
@@ -728,7 +1070,7 @@ class Watch:
                            expected=srepr(snap), observed=srepr(obj))
 
 
-class Oracle:
+class Oracle(AliasOracle):
     def __init__(self, M, res):
         self.M = M
         self.res = res
@@ -1077,7 +1419,19 @@ class Oracle:
                     self.bad("MaintenanceInfo:entry-unknown-key:raises:%s" % kind(e), "unknown key inside an entry makes from_json raise", case, observed=t)
             y = mm.MaintenanceInfo.from_json(t)
             if y is None or y._nodes != snap or list(y._nodes) != list(snap) or y._lock is not True:
-                self.bad("MaintenanceInfo:lost", "record does not survive to_json/from_json", case, observed=t)
+                # which entry/field was lost decides the signature: a UTC offset below one second is dropped by CPython's own
+                # fromisoformat (isoformat writes it) - everything else is a loss of the codec
+                sub = False
+                for e in snap.values():
+                    for dt in (e.deadline, e.expected_end):
+                        off = dt.utcoffset() if dt is not None else None
+                        sub |= off is not None and off != timedelta(0) and abs(off) < timedelta(seconds=1)
+                lost_other = y is None or list(y._nodes) != list(snap) or y._lock is not True or any(
+                    (a.state, a.deadline.replace(tzinfo=None) if a.deadline else None, a.expected_end.replace(tzinfo=None) if a.expected_end else None) !=
+                    (b.state, b.deadline.replace(tzinfo=None) if b.deadline else None, b.expected_end.replace(tzinfo=None) if b.expected_end else None)
+                    for a, b in zip(snap.values(), y._nodes.values()))
+                self.bad("MaintenanceInfo:lost" + (":subsecond-utc-offset" if sub and not lost_other else ""),
+                         "record does not survive to_json/from_json", case, observed=t)
             elif y.to_json() != t:
                 self.bad("MaintenanceInfo:reencode-differs", "re-encoding differs", case)
             # finalized record cannot be altered
@@ -1439,7 +1793,7 @@ class Oracle:
             self.maintenance([tuple(e) for e in c["entries"]], c.get("unknown_entry_key"))
         elif k == "ttuple":
             self.ttuple(c["class"], c["type"], c["val"])
-        else:
+        elif not self.run_alias_case(c):
             raise ValueError("unknown case kind %s" % k)
 
 
@@ -1496,10 +1850,23 @@ def battery(M):
                 full[f] = v[-1]
         B[cn].append({"kind": "jsonfield", "class": cn, "kw": to_wire(full), "unknown": None})
         B[cn].append({"kind": "jf_history", "class": cn, "kw": to_wire(full)})
+        # aliasing / mutation family: every corner, the full value, and (list-capable classes) list-valued fields
+        for kw in corners + [full]:
+            B[cn].append({"kind": "alias_jf", "class": cn, "kw": to_wire(kw)})
+        if guard_of(C) == "strlist":
+            lf = [f for f in names if (label_values(cl, f) if cn == "Labels" else STRS)]
+            pools = {f: list((label_values(cl, f) if cn == "Labels" else ["a", "b c", "é"]))[:3] for f in lf}
+            B[cn].append({"kind": "alias_jf", "class": cn, "kw": to_wire({f: list(pools[f]) for f in lf})})
+            B[cn].append({"kind": "alias_jf", "class": cn, "kw": to_wire({f: [] for f in lf[:2]})})
+            for i, f in enumerate(lf):
+                B[cn].append({"kind": "alias_jf", "class": cn, "kw": to_wire({f: list(pools[f]), lf[(i + 1) % len(lf)]: pools[lf[(i + 1) % len(lf)]][0]})})
+                B[cn].append({"kind": "alias_jf_forms", "class": cn, "field": f, "vals": list(pools[f])})
     TAGS = ["a", "tag-1", "under_score", "A" * 255, "é", "0", "x" * 17]
     for ts in [["a"], [], ["a", "a"], TAGS]:
         B["Tags"].append({"kind": "tags", "tags": ts})
         B["Tags"].append({"kind": "tags_history", "tags": ts})
+        for form in ("list", "tuple", "varargs", "mixed"):
+            B["Tags"].append({"kind": "alias_tags", "tags": ts, "form": form})
     for cname in ("MeasurementData", "UserData", "LayoutData"):
         mx = getattr(jd, cname).MAX_SIZE
         objs = [{"a": 1}, None, {}, [], {"a": {"b": [1, 2.5, None, True, "é"]}}, ["x" * (mx - 6)], ["x" * (mx - 4)], 0, 0.0, False,
@@ -1518,6 +1885,11 @@ def battery(M):
         B["Gateway"].append({"kind": "gateway", "kw": kw})
         if kw is not None:
             B["Gateway"].append({"kind": "gw_history", "kw": kw})
+            B["Gateway"].append({"kind": "alias_gw", "kw": kw})
+    # list-valued labels the gateway does not keep (subnet/address/mac are documented as single strings)
+    for kw in [dict(v4, vlan=["5", "7"], ipv6_subnet=["::/0"]), dict(v6, vlan_range=["100-200"], mac="00:11:22:33:44:55", local_name=["a", "b"])]:
+        B["Gateway"].append({"kind": "gateway", "kw": kw})
+        B["Gateway"].append({"kind": "alias_gw", "kw": kw})
     lists = [None, [], ["a"], ["n1", "n2", "n3"], ["é", "x y"]]
     for ero in (False, True):
         g = "ERO" if ero else "PathInfo"
@@ -1533,6 +1905,14 @@ def battery(M):
                         B[g].append({"kind": "pathinfo", "ero": ero, "type": "Path", "payload": to_wire([a, z]), "strict": strict, "unknown": unknown})
         for a in lists:
             B[g].append({"kind": "pi_history", "ero": ero, "payload": to_wire([a, list(reversed(a)) if a else a])})
+        for a in lists:
+            for z in lists:
+                B[g].append({"kind": "alias_pi", "ero": ero, "a2z": to_wire(a), "z2a": to_wire(z), "symmetric": False})
+            if a is not None:
+                B[g].append({"kind": "alias_pi", "ero": ero, "a2z": to_wire(a), "z2a": None, "symmetric": True})
+                B[g].append({"kind": "alias_pi", "ero": ero, "a2z": to_wire(a), "z2a": to_wire(a), "symmetric": False, "tuples": True})
+        for gid in ["graph-1", "", "é"]:
+            B[g].append({"kind": "alias_pi_graph", "ero": ero, "gid": gid})
     e1 = ["Maint", DATES[3].isoformat(), None]
     e2 = [None, None, DATES[1].isoformat()]
     B["MaintenanceInfo"] += [{"kind": "maintenance", "entries": [["n1", e1]], "unknown_entry_key": None},
@@ -1541,8 +1921,18 @@ def battery(M):
                              {"kind": "maintenance", "entries": [["RENC", e1], ["é", e2], ["", ["Unknown", DATES[2].isoformat(), DATES[4].isoformat()]]], "unknown_entry_key": None},
                              {"kind": "mi_history", "entries": [["n1", e1]]}, {"kind": "mi_history", "entries": []},
                              {"kind": "mi_history", "entries": [["RENC", e1], ["é", e2]]}]
+    e3 = ["Unknown", DATES[2].isoformat(), DATES[4].isoformat()]
+    for es in [[["n1", e1]], [], [["RENC", e1], ["é", e2], ["", e3]], [["a", ["Active", None, None]], ["b", ["PreMaint", DATES[0].isoformat(), DATES[1].isoformat()]]]]:
+        B["MaintenanceInfo"].append({"kind": "alias_mi", "entries": es})
+    for st in STATES:
+        for d1 in [None, DATES[0].isoformat(), DATES[3].isoformat()]:
+            for d2 in [None, DATES[1].isoformat(), DATES[2].isoformat()]:
+                B["MaintenanceInfo"].append({"kind": "alias_entry", "entry": [st, d1, d2]})
     TV = ["x", "", "a:b", ":", " lead", "é", "5", "a b"]
     for cname in TT:
+        for t in tuple_types(tt, cname)[:3]:
+            for v in ["x", "", "a:b", 7] if cname == "Capacity" else ["x", "", "a:b"]:
+                B["TypedTuple"].append({"kind": "alias_tt", "class": cname, "type": t, "val": v})
         for t in tuple_types(tt, cname):
             for v in TV:
                 B["TypedTuple"].append({"kind": "ttuple", "class": cname, "type": t, "val": v})
@@ -1569,13 +1959,24 @@ def random_cases(M, rng, n):
         elif r < 0.9:
             out.append({"kind": "update", "class": cn, "kw": to_wire(kw), "kw2": to_wire(domain_kwargs(cl, C, rng, density=rng.choice([0.0, 0.3, 0.6]))),
                         "bad_key": "no_such_field" if rng.random() < 0.2 else None})
-        else:
+        elif r < 0.95:
             out.append({"kind": "jf_history", "class": cn, "kw": to_wire(kw)})
+        else:
+            out.append({"kind": "alias_jf", "class": cn, "kw": to_wire(kw)})
     m = max(20, n // 25)
+    for i in range(m):                                  # list-heavy values of the list-capable classes
+        C = rng.choice([c for c in classes if guard_of(c) == "strlist"])
+        kw = {}
+        for f in list(C().__dict__):
+            pool = label_values(cl, f) if C.__name__ == "Labels" else STRS
+            if pool and rng.random() < 0.3:
+                kw[f] = [rng.choice(pool) for _ in range(rng.choice([0, 1, 2, 4]))] if rng.random() < 0.7 else rng.choice(pool)
+        out.append({"kind": "alias_jf", "class": C.__name__, "kw": to_wire(kw)})
     TAGS = ["a", "tag-1", "under_score", "A" * 255, "é", "0", "x" * 17]
     for i in range(m):
         ts = [rng.choice(TAGS) for _ in range(rng.choice([1, 2, 3, 8]))]
         out.append({"kind": rng.choice(["tags", "tags_history"]), "tags": ts})
+        out.append({"kind": "alias_tags", "tags": ts, "form": rng.choice(["list", "tuple", "varargs", "mixed"])})
 
     def robj(d=0):
         k = rng.random()
@@ -1605,11 +2006,17 @@ def random_cases(M, rng, n):
                 seen.add(nm)
                 es.append([nm, entry(rng)])
         out.append({"kind": rng.choice(["maintenance", "maintenance", "mi_history"]), "entries": es, "unknown_entry_key": None})
+        out.append({"kind": "alias_mi", "entries": es})
+        hops = [[rng.choice(["n1", "n2", "é", "a b", ""]) for _ in range(rng.choice([0, 1, 3]))] if rng.random() < 0.8 else None for _ in range(2)]
+        out.append({"kind": "alias_pi", "ero": rng.random() < 0.5, "a2z": to_wire(hops[0]), "z2a": to_wire(hops[1]),
+                    "symmetric": hops[0] is not None and rng.random() < 0.3})
     return out
 
 
 def is_nontrivial(c):
     k = c["kind"]
+    if k.startswith("alias_"):
+        return alias_nontrivial(c)
     if k in ("jsonfield", "update", "jf_history"):
         return bool(c["kw"].get("o")) if isinstance(c["kw"], dict) else bool(c["kw"])
     if k in ("tags", "tags_history"):
@@ -1761,6 +2168,8 @@ def oracle(ctx, res, n=None):
 
 def group_of(case):
     k = case["kind"]
+    if k.startswith("alias_"):
+        return alias_group(case)
     if k in ("jsonfield", "update", "jf_history", "jsondata", "jd_history"):
         return case["class"]
     return {"tags": "Tags", "tags_history": "Tags", "gateway": "Gateway", "gw_history": "Gateway", "maintenance": "MaintenanceInfo",
